@@ -51,10 +51,16 @@ def c12_history(n, seed, procs):
         for k in range(rnd.randint(1, 5)):
             kind = rnd.choice(["collect", "cls", "steps", "resolve", "oracle", "solve", "solve", "abandon"])
             hist.append(kind)
-            if kind == "solve":
-                pep, info = build_model(rnd); quiet_solve(pep, **({"dimension_reduction_heuristic": "trace"} if rnd.random() < .2 else {}))
-            elif kind == "abandon":
-                build_model(rnd)
+            try:
+                if kind == "solve":
+                    pep, info = build_model(rnd); quiet_solve(pep, **({"dimension_reduction_heuristic": "trace"} if rnd.random() < .2 else {}))
+                elif kind == "abandon":
+                    build_model(rnd)
+            except Exception as ex:
+                fails.append(dict(what="a model built and solved after %d earlier model(s) in the same interpreter raises %s (it solves in a fresh interpreter)" % (k, type(ex).__name__),
+                                  oracle="c12_history", input=dict(bseed=bseed, history=hist), tags=["c12"]))
+                continue
+            if kind in ("solve", "abandon"): pass
             else:
                 impl = cw.Impl()
                 for l in cw.GENS[kind](rnd.randint(0, 10 ** 6)):
@@ -62,8 +68,11 @@ def c12_history(n, seed, procs):
                     except Exception: pass
         verb = rnd.choice([0, 0, 1, 2])
         buf = io.StringIO()
-        with contextlib.redirect_stdout(buf):
-            got = _run_B(bseed, verb)
+        try:
+            with contextlib.redirect_stdout(buf):
+                got = _run_B(bseed, verb)
+        except Exception as ex:
+            got = ["RAISES %s" % type(ex).__name__]
         distinct.add((bseed, tuple(hist), verb))
         if got != ref:
             k = next((i for i in range(min(len(got), len(ref))) if got[i] != ref[i]), None)
@@ -93,25 +102,76 @@ def c13_resolve(n, seed, procs):
         held = pep.list_of_performance_metrics[0]
         leaves = list(Point.list_of_leaf_points)
         hv1 = float(held.eval())
-        mode = rnd.choice(["same", "primal", "edit"])
+        extended = False
+        mode = rnd.choice(["same", "primal", "edit", "edit", "edit_primal"])
+        if mode == "edit_primal":
+            old = pep.list_of_constraints[0]
+            pep.list_of_constraints[0] = (old.expression + 1 - 4 <= 0)
         if mode == "edit":
             # replace the initial condition radius 1 -> 2 (values scale by 4 for these homogeneous models)
             old = pep.list_of_constraints[0]
             pep.list_of_constraints[0] = (old.expression + 1 - 4 <= 0)
-        t2 = quiet_solve(pep, **({"return_primal_or_dual": "primal"} if mode == "primal" else {}))
+            if rnd.random() < .5:
+                extended = True
+                # one more evaluation of some leaf function at an existing point combination (more samples at the second solve)
+                lf = [f_ for f_ in __import__("PEPit").Function.list_of_functions if f_.get_is_leaf() and type(f_).__name__ not in ("Function",) and f_.list_of_points]
+                if lf:
+                    f_ = rnd.choice(lf); x_ = f_.list_of_points[0][0]; f_.gradient(x_ - 0.5 * f_.list_of_points[-1][0])
+        t2 = quiet_solve(pep, **({"return_primal_or_dual": "primal"} if mode in ("primal", "edit_primal") else {}))
+        if mode == "edit_primal": mode = "primal"; edited = True
+        else: edited = (mode == "edit")
         if t2 is None or t2 == "inconclusive": continue
         n2 = (len(pep._list_of_constraints_sent_to_wrapper), len(pep._list_of_psd_sent_to_wrapper), Expression.counter, Point.counter)
         distinct.add((json.dumps(info, sort_keys=True), mode))
         sc = max(1.0, abs(t1))
-        if mode in ("same", "primal") and abs(t1 - t2) > 2e-5 * sc:
+        if mode in ("same", "primal") and not edited and abs(t1 - t2) > 2e-5 * sc:
             fails.append(dict(what="solving the unchanged model again gives %.8g instead of %.8g" % (t2, t1), oracle="c13_resolve", input=desc, tags=["c13"]))
-        if n2[0] != n1[0] or n2[1] != n1[1]:
+        if not extended and (n2[0] != n1[0] or n2[1] != n1[1]):
             tag = "c13-partition-growth" if info["kind"] == "blocks" and n2[1] == n1[1] else "c13-growth"
             fails.append(dict(what="second solve sends %d constraints / %d LMIs, first sent %d / %d" % (n2[0], n2[1], n1[0], n1[1]), oracle="c13_resolve", input=desc, tags=["c13", tag]))
-        if n2[2] != n1[2] or n2[3] != n1[3]:
+        if not extended and (n2[2] != n1[2] or n2[3] != n1[3]):
             only_obj = (n2[2] == n1[2] + 1 and n2[3] == n1[3])
             fails.append(dict(what="the number of leaf expressions/points grows with each solve: %s -> %s" % (n1[2:], n2[2:]), oracle="c13_resolve", input=desc,
                               tags=["c13", "c13-objective-leaf" if only_obj else "c13-leaf-growth"]))
+        # the certificate exposed after the second solve must be the one of the second solve
+        if mode != "primal" or True:
+            from oracles2 import certificate_check
+            tdual = t2
+            if mode == "primal":
+                # value returned is the primal one; the constant of the identity must still be the latest dual bound (~ t2)
+                tdual = None
+            try:
+                f2, _ = certificate_check(pep, t2, info, dict(desc, mode=mode), "c13_resolve")
+                if mode == "primal" and abs(_["const"] - t2) > 1e-4 * max(1.0, abs(t2)):
+                    fails.append(dict(what="after the second solve (primal value %.8g) the exposed multipliers certify %.8g: they are not those of the latest solve" % (t2, _["const"]), oracle="c13_resolve", input=dict(desc, mode=mode), tags=["c13"]))
+                for f_ in f2:
+                    if "returned dual value" in f_["what"]:
+                        if mode == "primal": continue
+                    f_["what"] = "after the second solve (%s): %s" % (mode, f_["what"]); f_["tags"] = ["c13"] + [t for t in f_["tags"] if t.startswith("c01-")]
+                    fails.append(f_)
+            except ValueError as ex:
+                fails.append(dict(what="after the second solve (%s) a sent constraint has no multiplier: %s" % (mode, str(ex)[:80]), oracle="c13_resolve", input=dict(desc, mode=mode), tags=["c13"]))
+        # dual tables of every leaf function report the multipliers of the constraints sent at the latest solve
+        from PEPit import Function, Constraint
+        for fct in Function.list_of_functions:
+            if not fct.get_is_leaf() or type(fct).__name__ in ("BlockSmoothConvexFunction", "LinearOperator", "Function"): continue
+            try:
+                duals = fct.get_class_constraints_duals()
+            except Exception as ex:
+                fails.append(dict(what="get_class_constraints_duals raises %s after the second solve" % type(ex).__name__, oracle="c13_resolve", input=dict(desc, mode=mode), tags=["c13"])); continue
+            sent_ids = {id(c) for c in pep._list_of_constraints_sent_to_wrapper}
+            cur = {id(c) for c in fct.list_of_class_constraints}
+            for name, tab in fct.tables_of_constraints.items():
+                T = tab.values
+                for c in T.flatten():
+                    if isinstance(c, Constraint) and (id(c) not in sent_ids or id(c) not in cur):
+                        fails.append(dict(what="table %s of %s lists a constraint that was not sent at the latest solve (stale table)" % (name, type(fct).__name__), oracle="c13_resolve", input=dict(desc, mode=mode), tags=["c13"])); break
+                else:
+                    continue
+                break
+            n_tab = sum(1 for tab in fct.tables_of_constraints.values() for c in tab.values.flatten() if isinstance(c, Constraint))
+            if n_tab != len(fct.list_of_class_constraints):
+                fails.append(dict(what="tables of %s hold %d constraints, %d class constraints were generated for the latest solve" % (type(fct).__name__, n_tab, len(fct.list_of_class_constraints)), oracle="c13_resolve", input=dict(desc, mode=mode), tags=["c13"]))
         # a fresh object evaluates at the latest solution
         a, b = rnd.choice(leaves), rnd.choice(leaves)
         freshe = a * b + 0.0
@@ -127,7 +187,8 @@ def c13_resolve(n, seed, procs):
             fails.append(dict(what="a held expression evaluated after the first solve still reports %.6g after the second solve (latest solution gives %.6g)" % (held.eval(), want),
                               oracle="c13_resolve", input=dict(desc, mode=mode), tags=["c13", "c13-stale-cache"]))
         if len(samples) < 2: samples.append(dict(model=info, mode=mode, t1=t1, t2=t2, sent=[n1, n2]))
-        if len(fails) > 8: break
+    known = ("c13-stale-cache", "c13-objective-leaf", "c13-partition-growth")
+    fails.sort(key=lambda f: any(t in known for t in f["tags"]))
     return dict(evaluations=ev, distinct=len(distinct), failures=fails[:8], samples=samples)
 
 
@@ -152,6 +213,15 @@ def c17_tables(n, seed, procs):
         f = impl.o[fname]
         x = next(iter(impl.o[k] for k in impl.o if k.startswith("p")), None)
         pep = impl.pep
+        if rnd.random() < .5 and f.list_of_points and cls not in ("BlockSmoothConvexFunction",):
+            # duplicate labels: the same named point sampled again, or two samples carrying the same name
+            t0 = rnd.choice(f.list_of_points)
+            if t0[0].get_name() is None: t0[0].set_name("dup")
+            try:
+                f.oracle(t0[0]); f.oracle(t0[0])
+            except Exception: pass
+            if len(f.list_of_points) > 1 and rnd.random() < .5:
+                f.list_of_points[-1][0].set_name(t0[0].get_name())
         from PEPit import Expression
         pep.set_performance_metric(Expression())
         w = cw.SolvingWrapper(rnd.randint(0, 10 ** 6))
@@ -187,6 +257,18 @@ def c17_tables(n, seed, procs):
                             fails.append(dict(what="dual table %s entry (%d,%d) is %r, multiplier of the constraint stored there is %r" % (name, i, j, D[i, j], c.eval_dual()), oracle="c17_tables", input=desc, tags=tags))
                     elif float(D[i, j]) != 0.0:
                         fails.append(dict(what="dual table %s entry (%d,%d) is %r where no constraint exists" % (name, i, j, D[i, j]), oracle="c17_tables", input=desc, tags=tags))
+        # names: the constraint stored at (i, j) must be named after the condition and the labels of row i / column j
+        fid = f.get_name() or "Function_{}".format(f.counter)
+        for name, tab in f.tables_of_constraints.items():
+            if not hasattr(tab, "values"): continue
+            T = tab.values; rows = list(tab.index); cols = list(tab.columns)
+            for i in range(T.shape[0]):
+                for j in range(T.shape[1]):
+                    c = T[i, j]
+                    if not isinstance(c, Constraint): continue
+                    want1 = "IC_%s_%s(%s)" % (fid, name, cols[j]); want2 = "IC_%s_%s(%s, %s)" % (fid, name, rows[i], cols[j])
+                    if c.get_name() not in (want1, want2):
+                        fails.append(dict(what="constraint at (%d,%d) of table %s is named %r, expected %r" % (i, j, name, c.get_name(), want2 if T.shape[0] > 1 or rows[i] != 0 else want1), oracle="c17_tables", input=desc, tags=tags + ["c17-names:" + cls]))
         missing = [c for c in f.list_of_class_constraints if id(c) not in in_tables]
         if missing:
             fails.append(dict(what="%d class constraint(s) of %s appear in no table (e.g. %s)" % (len(missing), cls, missing[0].get_name()), oracle="c17_tables", input=desc, tags=tags + ["c17-no-table:" + cls]))
